@@ -43,7 +43,8 @@ type vf31Case struct {
 }
 
 type vf31Inst struct {
-	U   int64  `json:"u"`
+	D   int64  `json:"d"` // days since 1970-01-01 (UTC) ...
+	S   int64  `json:"s"` // ... and second of that day (Unix seconds do not fit the model's integers after 2038)
 	US  int64  `json:"us"`
 	Off int    `json:"off"`
 	Raw string `json:"raw"`
@@ -173,7 +174,7 @@ func TestVerif_C31_Playback(t *testing.T) {
 				t.Fatalf("listed start %q is not RFC 3339: %v", e.Start, err2)
 			}
 			_, off := tm.Zone()
-			starts = append(starts, vf31Inst{U: tm.Unix(), US: int64(tm.Nanosecond() / 1000), Off: off / 60, Raw: e.Start})
+			starts = append(starts, vf31Inst{D: tm.Unix() / 86400, S: tm.Unix() % 86400, US: int64(tm.Nanosecond() / 1000), Off: off / 60, Raw: e.Start})
 		}
 		out.Emit(map[string]any{"zone": c.Zone, "g": c.G, "starts": starts})
 	})
